@@ -93,6 +93,15 @@ def cases(tier):
                 if data == "off1e-5" and len(entered) <= 3:
                     continue
                 yield dict(withj=False, fam=list(fam), entered=entered, data=data, yf=1.0, scale="big")
+    # declaration order and use: characteristics declared smallest first (a nested characteristic BEFORE the one it includes) and used by the function
+    # of a transition parameter (so that they are evaluated during the run); data entered at years around the start year (linear interpolation)
+    for fam in fams:
+        ent = ["a", "b", "c"] + [f for f in fam if f != "frac" or "abc" in fam]
+        for flags in (dict(rev_decl=True), dict(tv=True), dict(rev_decl=True, tv=True)):
+            for data in ("ok", "off1", "neg1"):
+                yield dict(withj=False, fam=list(fam), entered=ent, data=data, yf=1.0, **flags)
+            if len(fam) >= 1:
+                yield dict(withj=False, fam=list(fam), entered=[f for f in fam if f != "frac" or "abc" in fam] + ["a"], data="ok", yf=0.5, **flags)
     # other routes to an integrated model: built model pickled / deep-copied and the copy integrated; every quantity read before integration
     for fam in fams:
         for via in ("pickle", "deepcopy", "read_first"):
@@ -167,9 +176,30 @@ def make_spec(case):
                 if name == first and yf != 1.0:
                     ch["yf"] = yf
             spec["characs"].append(ch)
-    # declaration order: larger characteristics first
+    # declaration order: larger characteristics first (rev_decl: nested characteristics before the ones they include, fractions before their denominator)
     order = ["abc", "ab", "bc", "nest", "frac"]
+    if case.get("rev_decl"):
+        order = ["frac", "nest", "bc", "ab", "abc"]
     spec["characs"].sort(key=lambda c: order.index(c["name"]))
+    if case.get("rev_decl") and spec["characs"]:
+        # every characteristic takes part in the function of a transition parameter, multiplied by zero: the dynamics are unchanged, but the
+        # characteristics have to be evaluated at every step
+        expr = "+".join(c["name"] for c in spec["characs"])
+        for p_ in spec["pars"]:
+            if p_["name"] == "r1":
+                p_["fn"] = f"0.4+0*({expr})"
+                p_["val"] = None
+        # ... and is exposed as an output parameter, so that the value the functions see can be compared with the members as well
+        for c_ in spec["characs"]:
+            if c_["name"] != "frac":
+                spec["pars"].append(dict(name="seen_" + c_["name"], fmt="number", fn=c_["name"]))
+    if case.get("tv"):
+        # the entered values are given for the years around the start year; the value at the start year is the linear interpolation (= the intended value)
+        spec["years"] = [1999.0, 2001.0]
+        for it in spec["comps"] + spec["characs"]:
+            for key in ("init", "val"):
+                if isinstance(it.get(key), (int, float)):
+                    it[key] = {"t": [1999.0, 2001.0], "v": [it[key] * 0.5, it[key] * 1.5]}
     if case.get("timedD"):
         # b becomes a timed compartment: its outflow to c is driven by a timed duration parameter
         spec["pars"] = [p for p in spec["pars"] if p["name"] != "r2"] + [dict(name="r2", fmt="duration", val=case["timedD"], timed=True)]
@@ -265,5 +295,13 @@ def run_case(case):
         if not np.allclose(cv, exp, rtol=1e-9, atol=1e-12):
             i = int(np.argmax(~np.isclose(cv, exp, rtol=1e-9, atol=1e-12)))
             vs.append(V("characteristic-not-sum-of-members", f"{case}: {ch.name} at index {i} is {cv[i]!r}, members give {exp[i]!r}", None))
+    for p_ in pop.pars:
+        if p_.name.startswith("seen_"):
+            mem = members(p_.name[5:], None)
+            num = sum(np.asarray(pop.get_comp(mm).vals, dtype=float) for mm in mem)
+            pv = np.asarray(p_.vals, dtype=float)
+            if not np.allclose(pv, num, rtol=1e-9, atol=1e-9):
+                i = int(np.argmax(~np.isclose(pv, num, rtol=1e-9, atol=1e-9)))
+                vs.append(V("characteristic-seen-by-functions-not-sum-of-members", f"{case}: a function reading {p_.name[5:]} at index {i} sees {pv[i]!r}, its members hold {num[i]!r}", None))
     over = len(vals) > 3
     return dict(states=T, transitions=T - 1, nontrivial=over, violations=vs[:5], outcome="accepted", counters=dict(accepted=1, accepted_overdetermined=int(over)))
